@@ -173,6 +173,18 @@ _USER_TEMPLATE = {
     "{% for n in T | imports %}import {{ n }}\n{% endfor %}# end \t \n\n\n",
 }
 _USER_TEMPLATE["cpp"] = _USER_TEMPLATE["c"]
+# fault templates: the user template with an assertion in the MIDDLE of the file (after unique names and pending blank
+# lines were produced) that fails for the type with short name A (first generated) / B (generated later) iff the run
+# omits serialization support; with omit=False they render exactly like the user template
+FAIL_TPLS = {"failA": "A", "failB": "B"}
+
+
+def _fail_template(lang: str, short_name: str) -> str:
+    text = _USER_TEMPLATE[lang]
+    marker = "{% for n in T | "
+    if text.count(marker) != 1:
+        raise HarnessError("user template lost its include/import loop")
+    return text.replace(marker, "{% assert not (T.short_name is defined and T.short_name == '" + short_name + "' and nunavut.support.omit) %}" + marker)
 
 
 def _userx(own: str, others: typing.Sequence[str], comment: str) -> str:
@@ -261,6 +273,12 @@ def event(
     }
 
 
+def faulting(ev: dict) -> bool:
+    """The run is refused half-way: a fault template, serialization support omitted, and a type with the fatal name."""
+    short = FAIL_TPLS.get(ev["tpl"])
+    return bool(short and ev["omit"] and any(n.split(".")[-3] == short for n in ev["S"]))
+
+
 def flagged(ev: dict) -> bool:
     return any(ev.get(k) for k in FLAG_KEYS)
 
@@ -326,6 +344,12 @@ class Layout:
                 d.mkdir(parents=True, exist_ok=True)
                 with open(d / "Any.j2", "w", encoding="utf-8", newline="") as f:
                     f.write(text)
+        for kind, short_name in FAIL_TPLS.items():
+            for lang in _USER_TEMPLATE:
+                d = self.tpl / (lang + "_" + kind)
+                d.mkdir(parents=True, exist_ok=True)
+                with open(d / "Any.j2", "w", encoding="utf-8", newline="") as f:
+                    f.write(_fail_template(lang, short_name))
         self.refs.mkdir(parents=True, exist_ok=True)
         self.out.mkdir(parents=True, exist_ok=True)
 
@@ -430,6 +454,8 @@ def run_event(ev: dict, lay: Layout) -> EvResult:
                 kwargs: typing.Dict[str, typing.Any] = {"post_processors": _make_pps(ev["pps"])}
                 if ev["tpl"] in ("user", "userx"):
                     kwargs["templates_dir"] = lay.tpl / (ev["lang"] if ev["tpl"] == "user" else ev["lang"] + "_x")
+                elif ev["tpl"] in FAIL_TPLS:
+                    kwargs["templates_dir"] = lay.tpl / (ev["lang"] + "_" + ev["tpl"])
                 kwargs.update(VARIANTS.get(ev.get("variant") or "", {}).get("gen", {}))
                 if ev["support"]:
                     g, sg = create_default_generators(ns, **kwargs)  # both share the post-processor list (as the CLI does)
@@ -776,7 +802,10 @@ def _leaf_exec(history: typing.List[dict], lay: Layout, alone: typing.Optional[s
 def _run_prefix_then(prefix: typing.List[dict], lasts: typing.List[dict], lay: Layout, alone: typing.Dict[str, set]) -> list:
     for ev in prefix:
         r = run_event(ev, lay)
-        if r.error is not None:
+        if faulting(ev):
+            if r.error is None or "TemplateAssertionError" not in r.error:
+                raise HarnessError(f"fault event {ev_id(ev)} did not fail with the template assertion: {r.error}")
+        elif r.error is not None:
             raise HarnessError(f"prefix event {ev_id(ev)} failed: {r.error}")
     # a last event that reuses the LanguageContext is preceded by its twin that does not (itself a history of the
     # thorough space), so that what the twin already shows is not reported a second time as an effect of the reuse
@@ -966,6 +995,39 @@ def generator_reuse_histories() -> typing.List[typing.Tuple[dict, dict]]:
     return out
 
 
+def fault_histories() -> typing.List[typing.Tuple[dict, dict]]:
+    """[a run that is REFUSED half-way (template assertion inside the file of the first / of a later type, after
+    template-unique names and blank lines were produced) ; a run that must not notice]: the same generator object called
+    again without the fault, and runs with all objects new (same / other target, user / built-in templates, with and
+    without the LanguageContext of the refused run)."""
+    out = []
+    for ns in NS_DEEP:
+        names = sorted(NAMESPACES[ns]["deps"])
+        for lang in LANG_LIST:
+            for ftpl in FAIL_TPLS:
+                for pps in ("none", "limit"):
+                    for support in (False, True):
+                        e1 = event(ns, names, lang, ftpl, pps, omit=True, support=support)
+                        if not faulting(e1):
+                            raise HarnessError(f"namespace {ns} has no type named {FAIL_TPLS[ftpl]}")
+                        out.append((e1, dict(e1, omit=False, reuse_gen=True)))
+                        if support:
+                            continue
+                        for lang2 in LANG_LIST:
+                            for tpl2 in TPLS:
+                                for pps2 in ("none", "limit"):
+                                    out.append((e1, event(ns, names, lang2, tpl2, pps2)))
+                                    if lang2 == lang:
+                                        out.append((e1, event(ns, names, lang2, tpl2, pps2, reuse=True)))
+    return out
+
+
+def _core_f(a: dict, b: dict) -> bool:
+    if a["ns"] not in ("fan", "chain") or a["tpl"] != "failB":
+        return False
+    return b["reuse_gen"] or (b["lang"] == a["lang"] and b["tpl"] == "user" and b["pps"] == "limit")
+
+
 def _core1(ev: dict) -> bool:
     if ev["ns"] == "clash":  # the two pairs of coinciding names, both orders, C and C++
         pairs = ({"x.FooBar.1.0", "x.foo.Bar.1.0"}, {"x.q.T.1.0", "x.Q.T.1.0"})
@@ -1077,6 +1139,12 @@ def run(ctx: Ctx) -> int:
         if ctx.thorough or _core_g(a, b) or ctx.in_slice("g|" + ev_id(a) + ">" + ev_id(b), 96):
             deep.setdefault("g|" + ev_id(a), ([a], []))[1].append(b)
     g_sel = sum(len(lasts) for key, (_, lasts) in deep.items() if key.startswith("g|"))
+    f_space = 0
+    for a, b in fault_histories():
+        f_space += 1
+        if ctx.thorough or _core_f(a, b) or ctx.in_slice("f|" + ev_id(a) + ">" + ev_id(b), 16):
+            deep.setdefault("f|" + ev_id(a), ([a], []))[1].append(b)
+    f_sel = sum(len(lasts) for key, (_, lasts) in deep.items() if key.startswith("f|"))
     ctx.cap(
         "depth >= 2: prefix events use the full type set in sorted order with pps in {none, limit} "
         "(TrimTrailingWhitespace is stateless, hence symmetric to none as a prefix); last events use S in "
@@ -1185,6 +1253,8 @@ def run(ctx: Ctx) -> int:
         raise HarnessError("no nested-namespace choice point was explored")
     if same_generator == 0:
         raise HarnessError("no history used a generator object twice")
+    if f_sel == 0:
+        raise HarnessError("no history with a refused run was explored")
 
     permset.assert_tree_unchanged(stamp)
     _confirm(ctx, lay)
@@ -1202,6 +1272,8 @@ def run(ctx: Ctx) -> int:
         depth3_space=d3_space,
         generator_reuse_histories_run=same_generator,
         generator_reuse_space=g_space,
+        fault_histories_run=f_sel,
+        fault_history_space=f_space,
         sigma_schedules_run=deviating,
         sigma_choice_sites=sorted(sigma_points),
         unique_names_emitted=unique,
@@ -1223,8 +1295,9 @@ def run(ctx: Ctx) -> int:
             f"every dependency-closed subset x every permutation x 3 languages x 2 template sets x 3 pps, + C++ standards "
             f"{CPP_STDS} and cross-language unique-name templates on 2 namespaces) + nested-namespace "
             f"schedules with <={'2' if ctx.thorough else '1'} deviation(s) on sorted order + {extra1} option events; "
-            f"depth 2: {by_depth[2] - g_sel}/{d2_space + x_space + o_space} (incl. {x_space} cross-language unique-name histories and {o_space} configuration-change histories); generator object used twice with "
-            f"(omit, auditing) flag transitions, and the same transitions with all objects new: {g_sel}/{g_space}; depth 3: {by_depth[3]}/{d3_space}; "
+            f"depth 2: {by_depth[2] - g_sel - f_sel}/{d2_space + x_space + o_space} (incl. {x_space} cross-language unique-name histories and {o_space} configuration-change histories); generator object used twice with "
+            f"(omit, auditing) flag transitions, and the same transitions with all objects new: {g_sel}/{g_space}; "
+            f"refused run (template assertion inside the first / a later file) followed by the same generator object or by new objects: {f_sel}/{f_space}; depth 3: {by_depth[3]}/{d3_space}; "
             f"{len(need)} fresh-process references"
         ),
         "exhaustive": False,
